@@ -891,6 +891,17 @@ def run_case(case, schedule, opts):
             REC.count('probe.some_component_failed')
         if len(set(nd['stage'] for nd in nodes.values())) > 1:
             REC.count('probe.multi_stage')
+        # components of a later stage submitted while an earlier stage is still running (early start)
+        stage_started = {}
+        for e in ev:
+            if e[2] == 'stage-start':
+                stage_started[int(e[3][5:])] = e[0]
+        early = [e[3] for e in ev if e[2] == 'submit' and e[3] in nodes
+                 and e[0] < stage_started.get(nodes[e[3]]['stage'], float('inf'))]
+        if early:
+            REC.count('probe.component_submitted_before_its_stage_started')
+            if any(states_settled.get(n) == 'failed' for n in early):
+                REC.count('probe.early_started_component_failed')
         # scheduler pass between finish() and finishedCheck() of the same component
         fin = {}
         for e in ev:
